@@ -4,6 +4,7 @@ import (
 	"fmt"
 	"runtime/debug"
 	"sort"
+	"strings"
 
 	"github.com/sarchlab/akita/v5/mem/vm"
 	"github.com/sarchlab/akita/v5/mem/vm/mmu"
@@ -49,7 +50,77 @@ type mmuCase struct {
 	OneRsp   bool     `json:"onersp,omitempty"` // take one response per idle period (else all)
 }
 
-const mmuLog2Page = 12
+const (
+	mmuLog2Page  = 12
+	mmuCycle     = timing.VTimeInPicoSec(1000) // the MMU's default 1 GHz
+	mmuSlowDrain = 4                           // a slow requester takes one response every 4th cycle
+	mmuMaxCycles = 200
+)
+
+// mmuDriver is the requester: one event per cycle on the MMU's engine (a
+// primary event, so it runs before the MMU's tick of the same cycle). It first
+// takes responses out of the Top port (all of them, or one every mmuSlowDrain
+// cycles), then hands over the next requests as far as the Top port accepts
+// them (back to back, or only once every earlier request has been answered).
+type mmuDriver struct {
+	eng    *timing.SerialEngine
+	top    messaging.Port
+	comp   *mmu.Comp
+	cs     mmuCase
+	reqIDs []uint64
+	next   int
+	cycle  int
+	rsps   []vmprotocol.TranslationRsp
+	// most walks seen in flight at once (evidence only)
+	maxWalks int
+}
+
+type mmuTickEvent struct{ timing.EventBase }
+
+func (d *mmuDriver) take() {
+	d.rsps = append(d.rsps, d.top.RetrieveOutgoing().(vmprotocol.TranslationRsp))
+}
+
+func (d *mmuDriver) Handle(_ timing.Event) error {
+	if n := len(d.comp.State.WalkingTranslations); n > d.maxWalks {
+		d.maxWalks = n
+	}
+	if d.cs.OneRsp {
+		if d.cycle%mmuSlowDrain == mmuSlowDrain-1 && d.top.PeekOutgoing() != nil {
+			d.take()
+		}
+	} else {
+		for d.top.PeekOutgoing() != nil {
+			d.take()
+		}
+	}
+	for d.next < len(d.cs.Reqs) && d.top.CanDeliver() {
+		if d.cs.Gap && len(d.rsps) < d.next {
+			break
+		}
+		r := d.cs.Reqs[d.next]
+		req := vmprotocol.TranslationReq{
+			VAddr:    uint64(r.VPage)<<mmuLog2Page + uint64(d.next%2)*0x10,
+			PID:      vm.PID(r.PID),
+			DeviceID: 2,
+		}
+		req.ID = uint64(7000 + d.next)
+		req.Src = "Requester.Port"
+		req.Dst = d.top.AsRemote()
+		req.TrafficClass = "vmprotocol.TranslationReq"
+		d.reqIDs[d.next] = req.ID
+		d.top.Deliver(req)
+		d.next++
+		if d.cs.Gap {
+			break
+		}
+	}
+	d.cycle++
+	if (d.next < len(d.cs.Reqs) || len(d.rsps) < len(d.cs.Reqs)) && d.cycle < mmuMaxCycles {
+		d.eng.Schedule(mmuTickEvent{EventBase: timing.MakeEventBase(d.eng.CurrentTime()+mmuCycle, "Requester")})
+	}
+	return nil
+}
 
 // recTable records every mutation and forwards to the real page table.
 type recTable struct {
@@ -57,12 +128,13 @@ type recTable struct {
 	inserts []vm.Page
 	removes int
 	updates int
+	finds   int // one per attempt to finish a walk
 }
 
 func (t *recTable) Insert(p vm.Page)                          { t.inner.Insert(p); t.inserts = append(t.inserts, p) }
 func (t *recTable) Remove(pid vm.PID, vAddr uint64)           { t.removes++; t.inner.Remove(pid, vAddr) }
 func (t *recTable) Update(p vm.Page)                          { t.updates++; t.inner.Update(p) }
-func (t *recTable) Find(pid vm.PID, a uint64) (vm.Page, bool) { return t.inner.Find(pid, a) }
+func (t *recTable) Find(pid vm.PID, a uint64) (vm.Page, bool) { t.finds++; return t.inner.Find(pid, a) }
 func (t *recTable) ReverseLookup(p uint64) (vm.Page, bool)    { return t.inner.ReverseLookup(p) }
 func (t *recTable) GetLog2PageSize() uint64 {
 	return t.inner.(interface{ GetLog2PageSize() uint64 }).GetLog2PageSize()
@@ -85,6 +157,7 @@ func runMMUCase(cs mmuCase) (string, []lib.Problem) {
 	}
 
 	var rsps []vmprotocol.TranslationRsp
+	issued, maxWalks := 0, 0
 	reqIDs := make([]uint64, len(cs.Reqs))
 	msg, where := lib.CatchStack(func() {
 		eng := timing.NewSerialEngine()
@@ -105,40 +178,18 @@ func runMMUCase(cs mmuCase) (string, []lib.Problem) {
 		top.SetConnection(&stubLink{})
 		ctrl.SetConnection(&stubLink{})
 
-		next := 0
-		for round := 0; round < 200; round++ {
-			progress := false
-			for next < len(cs.Reqs) && top.CanDeliver() {
-				r := cs.Reqs[next]
-				req := vmprotocol.TranslationReq{
-					VAddr:    uint64(r.VPage)<<mmuLog2Page + uint64(next%2)*0x10,
-					PID:      vm.PID(r.PID),
-					DeviceID: 2,
-				}
-				req.ID = uint64(7000 + next)
-				req.Src = "Requester.Port"
-				req.Dst = top.AsRemote()
-				req.TrafficClass = "vmprotocol.TranslationReq"
-				reqIDs[next] = req.ID
-				top.Deliver(req)
-				next++
-				progress = true
-				if cs.Gap {
-					break
-				}
+		drv := &mmuDriver{eng: eng, top: top, comp: comp, cs: cs, reqIDs: reqIDs}
+		eng.RegisterHandler("Requester", drv)
+		eng.Schedule(mmuTickEvent{EventBase: timing.MakeEventBase(0, "Requester")})
+		_ = eng.Run()
+		// anything the MMU still has to say after the last expected response
+		for k := 0; k < 16 && top.PeekOutgoing() != nil; k++ {
+			for top.PeekOutgoing() != nil {
+				drv.take()
 			}
 			_ = eng.Run()
-			for top.PeekOutgoing() != nil {
-				rsps = append(rsps, top.RetrieveOutgoing().(vmprotocol.TranslationRsp))
-				progress = true
-				if cs.OneRsp {
-					break
-				}
-			}
-			if !progress {
-				break
-			}
 		}
+		rsps, issued, maxWalks = drv.rsps, drv.next, drv.maxWalks
 	})
 	if msg != "" {
 		bad("panic", "the MMU panicked: %s at %s", msg, where)
@@ -182,6 +233,33 @@ func runMMUCase(cs mmuCase) (string, []lib.Problem) {
 	for _, r := range cs.Reqs {
 		touched[key{vm.PID(r.PID), uint64(r.VPage)}] = true
 	}
+	// every answer names the one mapping of its page
+	answered := map[uint64]int{}
+	answeredPage := map[key]bool{}
+	for _, r := range rsps {
+		idx := -1
+		for i, id := range reqIDs {
+			if id == r.RspTo {
+				idx = i
+			}
+		}
+		if idx < 0 {
+			bad("stray-response", "response %+v answers no request", r.MsgMeta)
+			continue
+		}
+		answered[r.RspTo]++
+		answeredPage[key{vm.PID(cs.Reqs[idx].PID), uint64(cs.Reqs[idx].VPage)}] = true
+		want, ok := table.inner.Find(vm.PID(cs.Reqs[idx].PID), uint64(cs.Reqs[idx].VPage)<<mmuLog2Page)
+		if ok && r.Page != want {
+			bad("response-names-other-mapping", "request %d (pid=%d vpage=%d) was answered with %+v, the table maps it to %+v", idx, cs.Reqs[idx].PID, cs.Reqs[idx].VPage, r.Page, want)
+		}
+	}
+	unanswered := 0
+	for _, id := range reqIDs {
+		if answered[id] == 0 {
+			unanswered++
+		}
+	}
 	keys := make([]key, 0, len(touched))
 	for k := range touched {
 		keys = append(keys, k)
@@ -191,8 +269,8 @@ func runMMUCase(cs mmuCase) (string, []lib.Problem) {
 	})
 	for _, k := range keys {
 		switch n := count[k]; {
-		case n == 0:
-			bad("no-mapping", "touched page pid=%d vpage=%d has no mapping when the MMU went idle", k.pid, k.vpage)
+		case n == 0 && answeredPage[k]:
+			bad("no-mapping", "a translation of pid=%d vpage=%d was answered but the page has no mapping in the final table", k.pid, k.vpage)
 		case n > 1:
 			bad("two-mappings", "touched page pid=%d vpage=%d has %d mappings", k.pid, k.vpage, n)
 		}
@@ -233,32 +311,10 @@ func runMMUCase(cs mmuCase) (string, []lib.Problem) {
 			}
 		}
 	}
-	// every answer names the one mapping of its page
-	answered := map[uint64]int{}
-	for _, r := range rsps {
-		idx := -1
-		for i, id := range reqIDs {
-			if id == r.RspTo {
-				idx = i
-			}
-		}
-		if idx < 0 {
-			bad("stray-response", "response %+v answers no request", r.MsgMeta)
-			continue
-		}
-		answered[r.RspTo]++
-		want, ok := table.inner.Find(vm.PID(cs.Reqs[idx].PID), uint64(cs.Reqs[idx].VPage)<<mmuLog2Page)
-		if ok && r.Page != want {
-			bad("response-names-other-mapping", "request %d (pid=%d vpage=%d) was answered with %+v, the table maps it to %+v", idx, cs.Reqs[idx].PID, cs.Reqs[idx].VPage, r.Page, want)
-		}
-	}
-	unanswered := 0
-	for _, id := range reqIDs {
-		if answered[id] == 0 {
-			unanswered++
-		}
-	}
-	return fmt.Sprintf("pre%d reqs%d auto%d inflight%d cap%d lat%d gap=%v onersp=%v unanswered%d", len(cs.Pre), len(cs.Reqs), autos, cs.InFlight, cs.Cap, cs.Latency, cs.Gap, cs.OneRsp, unanswered), dedupeProblems(probs)
+	// a walk whose response did not fit into the full outgoing buffer is
+	// finished a second time: one Find per attempt
+	retried := table.finds > len(rsps)
+	return fmt.Sprintf("pre%d reqs%d auto%d inflight%d cap%d walks%d retried=%v unissued%d unanswered%d", len(cs.Pre), len(cs.Reqs), autos, cs.InFlight, cs.Cap, maxWalks, retried, len(cs.Reqs)-issued, unanswered), dedupeProblems(probs)
 }
 
 // mmuTables yields every assignment of a subset of frames 0..3 to distinct
@@ -344,9 +400,16 @@ func mmuStreams(n int, yield func([]mmuReq) bool) bool {
 }
 
 func enumMMUCases(thorough bool, yield func(mmuCase) bool) {
-	emit := func(pre []mmuPre, reqs []mmuReq) bool {
+	emit := func(pre []mmuPre, reqs []mmuReq, allConfigs bool) bool {
 		for _, inflight := range []int{1, 2, 4} {
 			for _, cp := range []int{1, 4} {
+				if !allConfigs {
+					// the most adversarial timing only: slow walks, requests back to back, slow requester
+					if !yield(mmuCase{Pre: pre, Reqs: reqs, InFlight: inflight, Cap: cp, Latency: 2, Gap: false, OneRsp: true}) {
+						return false
+					}
+					continue
+				}
 				for _, lat := range []int{0, 2} {
 					for _, gap := range []bool{false, true} {
 						for _, one := range []bool{false, true} {
@@ -360,15 +423,23 @@ func enumMMUCases(thorough bool, yield func(mmuCase) bool) {
 		}
 		return true
 	}
-	// family = (stream length, max pre-inserted pages, page count up to which every pair assignment is taken)
-	type family struct{ n, maxPages, freeUpTo int }
-	fams := []family{{1, 4, 2}, {2, 4, 2}, {3, 1, 1}}
+	// family = (stream length, max pre-inserted pages, page count up to which
+	// every pair assignment is taken, only tables with more than minPages pages,
+	// all 48 configurations or the 6 of the adversarial timing)
+	type family struct {
+		n, maxPages, freeUpTo, minPages int
+		allConfigs                      bool
+	}
+	fams := []family{{1, 4, 2, 0, true}, {2, 4, 2, 0, true}, {3, 1, 1, 0, true}, {3, 4, 2, 2, false}}
 	if thorough {
-		fams = []family{{1, 4, 4}, {2, 4, 4}, {3, 4, 2}, {4, 1, 1}}
+		fams = []family{{1, 4, 4, 0, true}, {2, 4, 4, 0, true}, {3, 4, 2, 0, true}, {4, 1, 1, 0, true}, {4, 4, 2, 2, false}}
 	}
 	for _, f := range fams {
 		ok := mmuTables(f.maxPages, f.freeUpTo, func(pre []mmuPre) bool {
-			return mmuStreams(f.n, func(reqs []mmuReq) bool { return emit(pre, reqs) })
+			if len(pre) < f.minPages {
+				return true
+			}
+			return mmuStreams(f.n, func(reqs []mmuReq) bool { return emit(pre, reqs, f.allConfigs) })
 		})
 		if !ok {
 			return
@@ -392,7 +463,19 @@ func init() {
 		},
 		Run: func(c *lib.Ctx) {
 			debug.SetGCPercent(800) // many tiny simulations; collect less often
-			lib.Cases(c, func(yield func(mmuCase) bool) { enumMMUCases(c.Thorough(), yield) }, runMMUCase)
+			lib.Cases(c, func(yield func(mmuCase) bool) { enumMMUCases(c.Thorough(), yield) }, func(cs mmuCase) (string, []lib.Problem) {
+				out, probs := runMMUCase(cs)
+				if strings.Contains(out, "retried=true") {
+					c.Add("cases_with_a_retried_walk", 1)
+				}
+				if !strings.Contains(out, "walks0") && !strings.Contains(out, "walks1") {
+					c.Add("cases_with_concurrent_walks", 1)
+				}
+				if !strings.Contains(out, "unissued0 unanswered0") {
+					c.Add("cases_not_fully_answered", 1)
+				}
+				return out, probs
+			})
 		},
 		Replay: lib.ReplayCases(runMMUCase),
 	})
